@@ -133,6 +133,16 @@ def check_sec(items, txt, ctx, rep, pytrs):
                           f"find_sec({txt!r}) == {got}, expected {e}",
                           dedup='find_sec')
             return
+        # the list belongs to the caller: changing it changes nothing
+        got.reverse()
+        got.append('99')
+        again = pytrs.find_sec(txt)
+        if again != e:
+            ctx.violation('find_sec', case,
+                          f"find_sec({txt!r}) gives {again} after the list it "
+                          f"returned before was modified by the caller, "
+                          f"expected {e}", dedup='find_sec-again')
+            return
         full = f"T154N-R97W {txt}: NE/4"
         d = pytrs.PLSSDesc(full)
         ctx.hit('boundary:PLSSDesc')
